@@ -64,7 +64,8 @@ def extra(local, sc, cfg, sr, hev, wire, out):
 
 def run(tier, seed, model_ok=True):
     res = C.Result()
-    res.rule = ("seeded scenarios (handler-side sends, handler-side local_progress, local_wait_until on flags set by peers, callbacks, masks) x layout x routing x "
+    res.rule = ("[a quarter of the generated scenarios also run barriers of a SECOND ygm::comm living in the same process between the epochs; its events are removed from the judged history] " +
+                "seeded scenarios (handler-side sends, handler-side local_progress, local_wait_until on flags set by peers, callbacks, masks) x layout x routing x "
                 "capacity {0,1KB,16MB} x irecvs x isends_wait x issend x eager/rendezvous x policy; plus a directed family entering a blocking collective after "
                 "un-barriered traffic; distinct = (config, scenario shape) of completed runs")
     res.assumptions = ["MPI progress semantics as implemented by simmpi", "schedules sampled by seeded policies", "finite message DAGs"]
